@@ -364,9 +364,11 @@ def analyse_to_angle(ctx: Any, rule: str, relpath: str, qual: str, body: List[as
                      fields: Dict[str, str], mod: Any, node: Any) -> Dict[str, Any]:
     """Checks the atan2 argument pairs of a matrix->angle function; returns a comparable summary."""
     thresholds: List[str] = []
+    tests: List[ast.AST] = []
 
     def branch(test: ast.AST) -> List[bool]:
         thresholds.append(ast.unparse(test))
+        tests.append(test)
         return [True, False]
     sqrt_defs: Dict[str, Poly] = {}
 
@@ -427,9 +429,25 @@ def analyse_to_angle(ctx: Any, rule: str, relpath: str, qual: str, body: List[as
             else:
                 ok, want = False, '?'
             ctx.check(rule, ok, mod, node, f'{label}: atan2 arguments {num!r}, {den!r}; expected {want}', text=label, **kw)
-    th_ok = any('> 0.001' in t for t in thresholds)
-    ctx.check(rule, th_ok, mod, node, f'gimbal-lock branch must test horiz_dist > 0.001; tests seen: {thresholds}', text='gimbal threshold', **kw)
-    summary['threshold'] = sorted(set(thresholds))
+    # the branch test must compare the horizontal length of the forward axis (sqrt(cP^2)) with the engine's 0.001,
+    # or its square with 0.001**2
+    th_ok = False
+    th_desc = 'unrecognised'
+    if len(tests) == 1 and isinstance(tests[0], ast.Compare) and len(tests[0].ops) == 1 and isinstance(tests[0].ops[0], ast.Gt) \
+            and isinstance(tests[0].comparators[0], ast.Constant):
+        cval = float(tests[0].comparators[0].value)
+        lhs = subst(interp.ev(tests[0].left, dict(paths[0].env)))
+        if isinstance(lhs, tuple) and lhs[0] == 'sqrt' and lhs[1] == nf(cP * cP):
+            th_ok = abs(cval - 0.001) < 1e-15
+            th_desc = f'horizontal length > {cval}'
+        elif isinstance(lhs, Poly) and lhs == nf(cP * cP):
+            th_ok = abs(cval - 1e-6) < 1e-18
+            th_desc = f'squared horizontal length > {cval}'
+        else:
+            th_desc = f'{lhs!r} > {cval}'
+    ctx.check(rule, th_ok, mod, node, f'gimbal-lock branch must test the horizontal length of the forward axis against 0.001 (or its square against 1e-6); found: {th_desc}',
+              text='gimbal threshold', **kw)
+    summary['threshold'] = th_desc if th_ok else sorted(set(thresholds))
     return summary
 
 
